@@ -1,26 +1,30 @@
 /*UNIT
-{"props": ["C03","C06"], "kind": "K1", "tier": "thorough", "timeout": 600,
- "replace": ["ZSTD_buildSeqTable"], "cbmc": ["--unwind", "200"],
- "functions": ["ZSTD_decodeSeqHeaders"],
+{
+ "props": [
+  "C03",
+  "C06"
+ ],
+ "kind": "K2",
+ "tier": "quick",
+ "timeout": 600,
+ "functions": [
+  "ZSTD_decodeSeqHeaders"
+ ],
  "floor": 60,
- "assumes": ["STATUS: undecided in this environment — an unwinding assertion inside goto-instrument's contract library (write_set_check_assignment) is not closed for any bound tried (12..200); the 214 obligations of the function itself are discharged, but the unit is reported as undecided and kept in the thorough tier", "ZSTD_buildSeqTable replaced by its contract (the postcondition proved by c03_build_seq_table): REQUIRES its source range readable; returns an error or n <= srcSize",
-             "the context is a typed static object; only the fields the function reads are constrained"],
- "what": "sequences-section header parser on arbitrary bytes of symbolic length: every read stays inside the section, the three table-description parsers are handed ranges inside the section, the reserved bits must be zero, an empty section must end immediately; result is an error or a header size <= srcSize"}
+ "assumes": [
+  "calls of ZSTD_buildSeqTable are redirected (goto-instrument --replace-calls) to a stub that ASSERTS the callee's precondition (its source range readable, inside the section) and returns an error or n <= srcSize - the postcondition proved on the real body by unit c03_build_seq_table; its table-building effect is abstracted away (the pointer it publishes is set to the table space or the default table)",
+  "the context is a typed static object; only the fields the function reads are constrained"
+ ],
+ "what": "sequences-section header parser on arbitrary bytes of symbolic length: every read stays inside the section, the three table-description parsers are handed ranges inside the section, the reserved bits must be zero, an empty section must end immediately; result is an error or a header size <= srcSize",
+ "replace_calls": {
+  "ZSTD_buildSeqTable": "stub_buildSeqTable"
+ }
+}
 */
 #include "verif.h"
 #include "lib/common/zstd_internal.h"
 #include "lib/decompress/zstd_decompress_internal.h"
 
-static size_t ZSTD_buildSeqTable(ZSTD_seqSymbol* DTableSpace, const ZSTD_seqSymbol** DTablePtr,
-                                 symbolEncodingType_e type, unsigned max, U32 maxLog, const void* src, size_t srcSize,
-                                 const U32* baseValue, const U8* nbAdditionalBits, const ZSTD_seqSymbol* defaultTable, U32 flagRepeatTable,
-                                 int ddictIsCold, int nbSeq, U32* wksp, size_t wkspSize, int bmi2)
-__CPROVER_requires(DTableSpace != NULL && DTablePtr != NULL)
-__CPROVER_requires(srcSize == 0 || __CPROVER_r_ok(src, srcSize))                  /* the description lies inside the section */
-__CPROVER_requires(srcSize <= ((size_t)1 << 40))
-__CPROVER_assigns(*DTablePtr, __CPROVER_object_whole(DTableSpace), __CPROVER_object_whole(wksp))
-__CPROVER_ensures(ZSTD_isError(__CPROVER_return_value) || __CPROVER_return_value <= srcSize)
-;
 #include "lib/common/error_private.c"
 #include "lib/common/zstd_common.c"
 #undef FSE_isError
@@ -28,6 +32,21 @@ __CPROVER_ensures(ZSTD_isError(__CPROVER_return_value) || __CPROVER_return_value
 #include "lib/common/entropy_common.c"
 #include "lib/common/fse_decompress.c"
 #include "lib/decompress/zstd_decompress_block.c"
+
+/* stand-in for ZSTD_buildSeqTable at its three call sites (see "assumes") */
+size_t stub_buildSeqTable(ZSTD_seqSymbol* DTableSpace, const ZSTD_seqSymbol** DTablePtr,
+                                 symbolEncodingType_e type, unsigned max, U32 maxLog, const void* src, size_t srcSize,
+                                 const U32* baseValue, const U8* nbAdditionalBits, const ZSTD_seqSymbol* defaultTable, U32 flagRepeatTable,
+                                 int ddictIsCold, int nbSeq, U32* wksp, size_t wkspSize, int bmi2)
+{
+    (void)type; (void)max; (void)maxLog; (void)baseValue; (void)nbAdditionalBits; (void)flagRepeatTable; (void)ddictIsCold; (void)nbSeq; (void)wksp; (void)wkspSize; (void)bmi2;
+    __CPROVER_assert(DTableSpace != NULL && DTablePtr != NULL, "C03 seqheaders: table space and table pointer given");
+    __CPROVER_assert(srcSize == 0 || __CPROVER_r_ok(src, srcSize), "C03 seqheaders: the table description handed to the table builder lies inside the section");
+    __CPROVER_assert(srcSize <= ((size_t)1 << 40), "C03 seqheaders: the remaining size did not wrap");
+    if (nondet_vint()) return ERROR(corruption_detected);
+    *DTablePtr = nondet_vint() ? DTableSpace : defaultTable;
+    {   size_t const r = nondet_vsz(); __CPROVER_assume(r <= srcSize); return r; }
+}
 
 void harness(void)
 {
